@@ -31,6 +31,9 @@ class StdoutWriter(Writer):
         self._stderr_msg_reader = stderr_msg_reader
 
     def write(self, tmp_file_space: DirFileSpace, output: TextIO):
+        # The process writes directly to the file descriptor of output:
+        # text written earlier must not be left in the buffer of the file object
+        output.flush()
         processor = self._processor(tmp_file_space, output)
         result = processor.process(self._proc_exe_settings, self._command.command)
         if result.exit_code != 0:
